@@ -53,7 +53,7 @@ def shard_fn(shard, nshards, seed, tier, exe, ninputs):
         cases.append((cid, cmds))
         meta[cid] = (kind, s)
     cases.append(("%d.hist" % shard, ["Z"]))
-    results, crashes = core.run_script(exe, cases, tag="c03", timeout=1800)
+    results, crashes = core.run_script(exe, cases, tag="c03", timeout=1800, env=core.ambient_env(sh, shard))
     cmdmap = dict(cases)
     for cr in crashes:
         kind, frame = cr.summary()
